@@ -512,7 +512,7 @@ fn run_workload(plan: &Plan, w: &Workload, run_index: u64, seed: u64, cov: &mut 
         replay: vec![],
         sched_index: u64::MAX,
     }];
-    let with_framewise = plan.prop == "C05";
+    let with_framewise = plan.prop == "C05" || plan.prop == "C03";
     if with_framewise {
         plans.push(ExecPlan {
             mode: Mode::Framewise,
@@ -602,6 +602,13 @@ fn run_workload(plan: &Plan, w: &Workload, run_index: u64, seed: u64, cov: &mut 
             if plan.prop == "C03" {
                 if let Some(d) = check_streaminfo(w, &single) {
                     violation(sctx, "streaminfo_mismatch", format!("single-thread: {d}"));
+                }
+                // a stream assembled block by block by the caller from the library's own `Context`
+                // (digest and count taken from it at the end, possibly looked at in between)
+                let fw = results.next().expect("framewise result");
+                cov.absorb(w, whash, &uni, &fw, Mode::Framewise);
+                if let Some(d) = check_streaminfo(w, &fw) {
+                    violation((w, Mode::Framewise, &uni, 0, &fw, run_index, u64::MAX - 1), "streaminfo_mismatch", format!("frame-wise assembly: {d}"));
                 }
             }
             if plan.prop == "C05" {
